@@ -5,6 +5,7 @@
 package sm
 
 import (
+	"context"
 	"errors"
 	"fmt"
 	"net"
@@ -16,6 +17,9 @@ import (
 	"github.com/fiorix/go-diameter/v4/diam/datatype"
 	"github.com/fiorix/go-diameter/v4/diam/dict"
 )
+
+// dwacKey is the context key of a connection's watchdog ack channel.
+type dwacKey struct{}
 
 var (
 	// ErrMissingStateMachine is returned by Dial or DialTLS when
@@ -220,7 +224,14 @@ func (cli *Client) handshake(c diam.Conn) (diam.Conn, error) {
 		// Buffered, so that an answer handled before dwr starts
 		// waiting for it is not lost.
 		dwac = make(chan struct{}, 1)
-		cli.Handler.mux.Handle("DWA", handshakeOK(handleDWA(cli.Handler, dwac)))
+		// The DWA handler is shared by every connection of this state
+		// machine: keep the channel with the connection so that an answer
+		// reaches the watchdog of the connection it arrived on.
+		c.SetContext(context.WithValue(c.Context(), dwacKey{}, dwac))
+		cli.Handler.mux.Handle("DWA", handshakeOK(func(c diam.Conn, m *diam.Message) {
+			ch, _ := c.Context().Value(dwacKey{}).(chan struct{})
+			handleDWA(cli.Handler, ch)(c, m)
+		}))
 	}
 	for i := 0; i < (int(cli.MaxRetransmits) + 1); i++ {
 		_, err := m.WriteTo(c)
